@@ -29,6 +29,14 @@ side with the implementation's answers.
 * `obs …` lines (a `Csr` built by `with_nodes(n)` BEYOND the capacity of the index type — outside the property's
   quantifier, `C05_csr_with_nodes_beyond_capacity`): a recorded observation, compared exactly with the mirror
   (`MODELDIFF` otherwise), never judged against the specification, no scope checks.
+* `law <name>` lines (wave 6): laws the harness checks against the implementation itself — the `Iterator` /
+  `DoubleEndedIterator` / `ExactSizeIterator` contract (crate::iterlaws) on EVERY iterator of csr.rs / adj.rs (fresh,
+  mid-iteration, on empty / cleared / full structures), the visit-trait views (`NodeCount`, `EdgeCount`, `NodeIndexable`,
+  `GraphProp`, `IntoNeighbors`, `IntoEdges`, `IntoEdgeReferences`, `IntoNodeIdentifiers`, `IntoNodeReferences`,
+  `GetAdjacencyMatrix`, `DataMap`) against the inherent readers the mirror judges, `Visitable::visit_map` / `reset_map`
+  (maps made for a smaller / larger graph) with the `VisitMap` contract (`visit` / `is_visited` / `unvisit`),
+  `clone` / `clone_from` onto an arbitrary prior value, `Default` ≡ `new` ≡ `with_nodes(0)` / `with_capacity(k)`,
+  `Debug` / `Display` never panic.  Only `ok` passes (`lawVerdict`, `C05_law_verdict_ok_iff`); anything else → `SPECFAIL`.
 * `bsearch <sorted slice> <x>` lines: `<[usize]>::binary_search` itself against the mirror's `binaryPos`: judged by the
   documented contract (`bsContractB`, `C05_bsearch_judge_iff`), and compared exactly when the slice is strictly
   ascending (where the contract determines the answer, `C05_binary_search_contract_unique`).
@@ -518,6 +526,10 @@ def step (d : DState) (req : List String) (impl : String) : DState × String :=
     match x.toNat? with
     | some x => (d, stepBsearch (parseNats xs) x impl)
     | none => (d, s!"SPECFAIL bad request {req}")
+  | "law" :: name =>
+    -- a law the harness checked against the implementation itself (iterator contract on every iterator of csr.rs /
+    -- adj.rs, trait views vs inherent readers, VisitMap / reset_map, clone_from, Default, Debug): only `ok` passes
+    (d, lawVerdict name impl)
   | "obs" :: rest =>
     if d.isCsr then stepCsr true d rest impl else (d, s!"SPECFAIL bad request {req}")
   | _ =>
